@@ -84,6 +84,7 @@ pub fn gen_cfg(t: &mut Tape, profile: Profile) -> RunCfg {
         p_io_err: [0, 0, 4, 20][t.choose(4) as usize],
         p_cancel: [0, 50, 200, 500][t.choose(4) as usize],
         p_write_zero: [0, 0, 0, 0, 0, 10, 40][t.choose(7) as usize],
+        p_slow_write: 0,
         zero_time_io: false,
         p_withhold_ack: [0, 50, 200, 500][t.choose(4) as usize],
         p_fail_reason: [0, 0, 50, 200][t.choose(4) as usize],
@@ -116,6 +117,11 @@ pub fn gen_cfg(t: &mut Tape, profile: Profile) -> RunCfg {
         big: 0,
         dense_ids: false,
     };
+    // slow link (no tape draw of its own: tied to the heaviest stall/partial-write settings, one
+    // run in eight): timers run while a packet is half-written
+    if c.p_stall == 300 && c.p_partial_write >= 400 && profile != Profile::Timing {
+        c.p_slow_write = 60;
+    }
     // rare large-arena runs: 16 KiB / 2 MiB remaining-length boundaries, 65535/65536-byte fields
     let big = matches!(profile, Profile::General | Profile::Limits) && t.chance(1, 120);
     if big {
@@ -509,7 +515,8 @@ pub fn run_connection(conn: &mut Conn<'_, '_>, steps_left: &mut u32) -> ConnEnd 
             if !live {
                 // the only non-fatal result that may close the connection: a mandatory
                 // acknowledgement does not fit the broker's Maximum Packet Size (C14)
-                let ok = matches!(r, Res::PacketTooLarge) && matches!(step, Step::Poll | Step::Recv | Step::Drive);
+                // (after disconnect() the handle may be closed whatever it returned)
+                let ok = matches!(r, Res::PacketTooLarge) && matches!(step, Step::Poll | Step::Recv | Step::Drive) || matches!(step, Step::Disconnect);
                 if !ok {
                     with(|w| {
                         w.violate(
@@ -540,11 +547,13 @@ pub fn benign_drain(conn: &mut Conn<'_, '_>) -> bool {
         for ((_, seq), ev) in evs {
             let keep = match &ev {
                 world::Event::Deliver { conn, .. } | world::Event::Close { conn } => *conn == cur,
+                world::Event::Unblock { .. } => false,
             };
             if keep {
                 w.events.insert((clock::now(), seq), ev);
             }
         }
+        w.conns[cur].write_blocked_until = 0; // the link is fast again
         broker::release_withheld(w, cur);
         let ep = w.epoch;
         let pending = w.reqs.iter().filter(|r| r.epoch == ep && !r.invalidated && r.accept != Accept::NotAccepted && r.qos > 0 && !matches!(r.phase, Phase::Done(_))).count();
@@ -1034,46 +1043,60 @@ pub fn with_session<R>(cfg: &RunCfg, f: impl FnOnce(&mut Session<'_>) -> R) -> R
     let mut rx = vec![0u8; cfg.rx_len];
     let mut tx = vec![0u8; cfg.tx_len];
     let will_props: Vec<Property<'_>> = cfg.will.iter().flat_map(|w| w.props.iter()).map(to_minimq).collect();
-    let mut b = ConfigBuilder::new(Buffers::new(&mut rx, &mut tx)).keepalive_interval(cfg.keepalive_s).session_expiry_interval(cfg.session_expiry);
-    if !cfg.client_id.is_empty() {
-        b = b.client_id(&cfg.client_id).expect("client id fits");
+    let mut b = ConfigBuilder::new(Buffers::new(&mut rx, &mut tx));
+    // the six builder calls in a configuration-dependent order: they must commute
+    let mut order = [0u8, 1, 2, 3, 4, 5];
+    let mut h = crate::util::mix(crate::util::mix(cfg.keepalive_s as u64, cfg.session_expiry as u64), (cfg.rx_len * 31 + cfg.tx_len) as u64);
+    for i in (1..6).rev() {
+        order.swap(i, (h % (i as u64 + 1)) as usize);
+        h /= 11;
     }
-    if cfg.downgrade {
-        b = b.autodowngrade_qos();
-    }
-    if let Some(wc) = &cfg.will {
-        let mut will = minimq::Will::new(&wc.topic, &wc.payload, &will_props).expect("will config valid");
-        let q = |v: u8| match v {
-            0 => QoS::AtMostOnce,
-            1 => QoS::AtLeastOnce,
-            _ => QoS::ExactlyOnce,
+    for step in order {
+        b = match step {
+            0 => b.keepalive_interval(cfg.keepalive_s),
+            1 => b.session_expiry_interval(cfg.session_expiry),
+            2 if !cfg.client_id.is_empty() => b.client_id(&cfg.client_id).expect("client id fits"),
+            3 if cfg.downgrade => b.autodowngrade_qos(),
+            4 => match &cfg.will {
+                Some(wc) => {
+                    let mut will = minimq::Will::new(&wc.topic, &wc.payload, &will_props).expect("will config valid");
+                    let q = |v: u8| match v {
+                        0 => QoS::AtMostOnce,
+                        1 => QoS::AtLeastOnce,
+                        _ => QoS::ExactlyOnce,
+                    };
+                    // the builder calls commute: try different orders
+                    match wc.build_order {
+                        0 => {
+                            will = will.qos(q(wc.qos));
+                            if wc.retain {
+                                will = will.retained();
+                            }
+                        }
+                        1 => {
+                            if wc.retain {
+                                will = will.retained();
+                            }
+                            will = will.qos(q(wc.qos));
+                        }
+                        _ => {
+                            will = will.qos(q((wc.qos + 1) % 3));
+                            if wc.retain {
+                                will = will.retained();
+                            }
+                            will = will.qos(q(wc.qos));
+                        }
+                    }
+                    b.will(will).expect("will once")
+                }
+                None => b,
+            },
+            5 => match &cfg.auth {
+                Some((u, p)) => b.auth(u, p).expect("auth once"),
+                None => b,
+            },
+            _ => b,
         };
-        // the builder calls commute: try different orders
-        match wc.build_order {
-            0 => {
-                will = will.qos(q(wc.qos));
-                if wc.retain {
-                    will = will.retained();
-                }
-            }
-            1 => {
-                if wc.retain {
-                    will = will.retained();
-                }
-                will = will.qos(q(wc.qos));
-            }
-            _ => {
-                will = will.qos(q((wc.qos + 1) % 3));
-                if wc.retain {
-                    will = will.retained();
-                }
-                will = will.qos(q(wc.qos));
-            }
-        }
-        b = b.will(will).expect("will once");
-    }
-    if let Some((u, p)) = &cfg.auth {
-        b = b.auth(u, p).expect("auth once");
     }
     let mut session = Session::new(b);
     f(&mut session)
